@@ -1,6 +1,7 @@
 import RichModel.Drv.Proto
 import RichModel.Model.Totality
 import RichModel.Model.TotalityPrint
+import RichModel.Model.TotalityTitle
 import RichModel.Gen.CellWidths
 /-
 Driver handlers for property C14 (the exception layer of the string entry points).
@@ -15,6 +16,11 @@ Wire format (fields separated by TAB; strings are space-separated decimal code p
   c14_norm   vErr s            -> ok:<normal form>                     | err:<Class>
   c14_markup vErr s            -> ok:<plain>|<start>.<stop>.<style>;…  | err:<Class>     (emoji=False)
   c14_get_style vErr name def  -> ok | err:MissingStyle | err:Other    (def: `-` none, `o` a Style object, `s<str>` a str)
+  c14_expand_tabs tabAssert s textTab argTab -> ok:<plain> | err:Other:<Class>   (`Text(s, tab_size=textTab).expand_tabs(argTab)`; `-` = None)
+  c14_rule_title  tabAssert s textTab        -> ok:<plain> | err:Other:<Class>   (the title of `Rule(Text(s, tab_size=textTab))` after rule.py:76-79)
+  c14_panel_title tabAssert s textTab        -> ok:<plain> | err:Other:<Class>   (`Panel(…, title=Text(s, tab_size=textTab))._title.plain`)
+  c14_guides_prep tabAssert s textTab        -> ok | err:Other:<Class>           (`Text(s, tab_size=textTab).with_indent_guides()` raises or not)
+`tabAssert` = 1: the code as found (`assert tab_size is not None`, C14-T1), 0: pending_fixes/C14-expand-tabs-tab-size-none-assertion.diff.
 `vErr` = 1: rich 9.10.0 as found, where `int()`'s ValueError escapes `Color.parse` (F9); 0: the repaired code (fix c34676b, what /repo contains
 now and what the harness sends).
 -/
@@ -62,10 +68,29 @@ def encPyErr : PyErr → String
   | .assertionError => "AssertionError" | .zeroDivisionError => "ZeroDivisionError" | .keyError => "KeyError"
   | .runtimeError => "RuntimeError"
 
+def encTextRes (plain : Bool) : Except PyErr (Text Nat) → String
+  | .ok t => if plain then "ok:" ++ encStr t.plain else "ok"
+  | .error e => "err:Other:" ++ encPyErr e
+
+def mkTitle (s ts : String) : Text Nat :=
+  Text.new Variant.repaired (decStr s) (0 : Nat) [] none none none ['\n'] (decOptNat ts)
+
 def handlers : List (String × (List String → String)) := [
+  ("c14_expand_tabs", fun a => match a with
+    | [f, s, ts, arg] => encTextRes true (expandTabsV (decBool f) Variant.repaired (mkTitle s ts) (decOptNat arg))
+    | _ => "bad-args"),
+  ("c14_rule_title", fun a => match a with
+    | [f, s, ts] => encTextRes true (ruleTitlePrep (decBool f) Variant.repaired (mkTitle s ts))
+    | _ => "bad-args"),
+  ("c14_panel_title", fun a => match a with
+    | [f, s, ts] => encTextRes true (panelTitle (decBool f) Variant.repaired (mkTitle s ts))
+    | _ => "bad-args"),
+  ("c14_guides_prep", fun a => match a with
+    | [f, s, ts] => encTextRes false (guidesPrep (decBool f) Variant.repaired (mkTitle s ts))
+    | _ => "bad-args"),
   ("c14_text_measure", fun a => match a with   -- Text(s).__rich_measure__: ok:<min>,<max> | err:Other:<Class>
     | [s] =>
-      match textRichMeasureE pyIsSpace pyIsSpace (charWidthT Gen.cellWidths) (Text.new Variant.repaired (decStr s) (0 : Nat)).plain with
+      match textRichMeasureNL pyIsSpace pyIsSpace (charWidthT Gen.cellWidths) (Text.new Variant.repaired (decStr s) (0 : Nat)).plain with
       | .ok m => "ok:" ++ toString m.minimum ++ "," ++ toString m.maximum
       | .error e => "err:Other:" ++ encPyErr e
     | _ => "bad-args"),
